@@ -31,6 +31,9 @@ INLINE = {
     "prob-geo": ("x, y = 1, 1\nwhile true:\n    x = 2*x {1/2} x\n    y = 3*y {1/4} y\nend\n",
                  ["E(x)", "E(y)", "E(x**2)", "E(x*y)"]),
     "prob-half": ("x, y = 1, 1\nwhile true:\n    x = 4*x {1/2} 0\n    y = y/2\nend\n", ["E(x)", "E(y)", "E(x**2)"]),
+    "dep-primes-6-30-5": ("x, y, z = 1, 1, 1\nwhile true:\n    x = 11*x {1/2} x\n    y = 59*y {1/2} y\n    z = 9*z {1/2} z\nend\n",
+                          ["E(x)", "E(y)", "E(z)"]),
+    "powers-2-8": ("x, y = 1, 1\nwhile true:\n    x = 2*x\n    y = 8*y\nend\n", []),
     "sign-flip": ("x, s = 1, 1\nwhile true:\n    s = -s\n    x = 2*x\nend\n", []),
     "walk-cumulants": ("x = 0\nwhile true:\n    x = x + 2 {1/3} x - 1\nend\n", ["E(x)", "c2(x)", "k3(x)", "E(x**2)"]),
 }
